@@ -16,24 +16,7 @@ size_t nondet_size(void);
 
 #include "db_impl.c"
 
-ldb_t *g_db;
-int g_held; unsigned g_locks, g_unlocks;
-/* directory model */
-int g_len;                    /* number of entries returned by ldb_get_children (or -1)   */
-char **g_filenames;           /* array of g_len names; name i is the pointer g_name_base+i */
-char *g_name_base;
-int g_k;                      /* the tracked entry                                         */
-int g_parses_k; ldb_filetype_t g_type_k; uint64_t g_num_k;   /* what its name parses to    */
-int g_pending_k, g_inversion_k;   /* its number is in pending_outputs / in some live version */
-int g_copied_pending, g_added_versions, g_children_calls;
-unsigned g_pushed_k, g_evicted_k, g_removed_k, g_removed_total, g_pushed_total;
-const char *g_join_name;
-int g_live_inited;
-int g_cur_parse_idx, g_cur_join_idx;
-int g_parse_calls, g_join_calls;   /* entries are visited in order: call number = index */
-size_t g_pos_k;                   /* position of the tracked name on the delete list */
-int g_joined_k;                   /* its path could be formed */
-int g_keep_k;                     /* KEEP_K evaluated at entry (versions' counters do not change during gc) */
+#include "contracts/dbgc.h"
 
 void ldb_mutex_lock(ldb_mutex_t *m) { __CPROVER_assert(m == &g_db->mutex && !g_held, "lock: DB mutex not held"); g_held = 1; g_locks++; }
 void ldb_mutex_unlock(ldb_mutex_t *m) { __CPROVER_assert(m == &g_db->mutex && g_held, "unlock: DB mutex held"); g_held = 0; g_unlocks++; }
@@ -122,7 +105,7 @@ __CPROVER_requires(db == g_db && g_held && __CPROVER_rw_ok(db, sizeof(*db)) && _
 __CPROVER_requires(g_len >= -1 && g_k >= 0 && (g_len <= 0 || g_k < g_len))
 __CPROVER_requires(g_pushed_k == 0 && g_evicted_k == 0 && g_removed_k == 0 && g_removed_total == 0 && g_pushed_total == 0 && g_children_calls == 0)
 __CPROVER_requires(g_copied_pending == 0 && g_added_versions == 0 && g_parse_calls == 0 && g_join_calls == 0 && g_joined_k == 0 && g_keep_k == KEEP_K(db))
-__CPROVER_assigns(g_held, g_locks, g_unlocks, g_copied_pending, g_added_versions, g_children_calls, g_pushed_k, g_evicted_k, g_removed_k, g_removed_total, g_pushed_total, g_join_name, g_live_inited, g_parse_calls, g_join_calls, g_pos_k, g_joined_k, g_cur_parse_idx, g_cur_join_idx)
+__CPROVER_assigns(DBGC_GHOST)
 __CPROVER_ensures(g_held && g_locks - __CPROVER_old(g_locks) == g_unlocks - __CPROVER_old(g_unlocks))
 /* after a background error nothing is collected (a version may or may not have been committed) */
 __CPROVER_ensures(db->bg_error != LDB_OK ==> (g_children_calls == 0 && g_removed_total == 0))
@@ -155,6 +138,32 @@ void h_gc(void) {
   g_pushed_k = g_evicted_k = g_removed_k = g_removed_total = g_pushed_total = 0; g_children_calls = 0;
   g_copied_pending = g_added_versions = 0; g_join_name = NULL; g_parse_calls = g_join_calls = 0; g_joined_k = 0;
   g_keep_k = KEEP_K(db);
+  ldb_remove_obsolete_files(db);
+  CANARY();
+}
+
+/* the same function against the call-protocol carrier used by its callers (db.flush, db.bg, db.open) */
+void h_gc_call(void) {
+  ldb_t *db = malloc(sizeof(ldb_t));
+  ldb_versions_t *vs = malloc(sizeof(ldb_versions_t));
+  size_t nn;
+  __CPROVER_assume(db != NULL && vs != NULL);
+  g_db = db; db->versions = vs;
+  __CPROVER_assume(g_len >= -1);
+  nn = (size_t)(g_len > 0 ? g_len : 0) + 1;
+  g_name_base = malloc(nn); g_filenames = malloc(nn * sizeof(char *));
+  __CPROVER_assume(g_name_base != NULL && g_filenames != NULL);
+  __CPROVER_assume(g_k >= 0 && (g_len <= 0 || g_k < g_len));
+  /* name i is the pointer base+i: distinct entries have distinct names */
+  if (g_len > 0) g_filenames[g_k] = g_name_base + g_k;
+  __CPROVER_assume(g_parses_k == 0 || g_parses_k == 1);
+  __CPROVER_assume(g_type_k >= LDB_FILE_LOG && g_type_k <= LDB_FILE_INFO);
+  __CPROVER_assume((g_pending_k == 0 || g_pending_k == 1) && (g_inversion_k == 0 || g_inversion_k == 1));
+  g_held = 1; g_locks = 1; g_unlocks = 0;
+  g_pushed_k = g_evicted_k = g_removed_k = g_removed_total = g_pushed_total = 0; g_children_calls = 0;
+  g_copied_pending = g_added_versions = 0; g_join_name = NULL; g_parse_calls = g_join_calls = 0; g_joined_k = 0;
+  g_keep_k = KEEP_K(db);
+  g_gc_allowed = 1;
   ldb_remove_obsolete_files(db);
   CANARY();
 }
